@@ -75,8 +75,14 @@ def run(ctx) -> None:
                 scan_nodes.append(n)
                 break
     if not scan_nodes:
-        raise AnchorError("no scan of dead_man_switch_user_ids.values() found in on_ws_disconnect: "
-                          "cannot locate the other-connection test")
+        # alternative design: a per-user connection counter kept next to the connection map. It is only equivalent to
+        # scanning the map if it moves in lock-step with the map's *key set*: +1 only when a new connection key is
+        # inserted, -1 only when a key is removed.
+        if _check_counter_design(ctx, f, acq, s, s2, sub, is_map):
+            _r37c_and_d(ctx, prog, f, acq, g)
+            return
+        raise AnchorError("no scan of dead_man_switch_user_ids.values() found in on_ws_disconnect and no connection counter "
+                          "recognised: cannot locate the other-connection test")
     scan = scan_nodes[0]
     # is the own entry already removed when the scan runs?
     removed_before = any(g.dominates(k, scan) and k.id != scan.id for k in kills) or \
@@ -98,6 +104,10 @@ def run(ctx) -> None:
     else:
         ctx.ok("R37b", inst, {"rule": "R37b", "own_entry_removed_before_scan": removed_before, "minimum": thr[0]})
 
+    _r37c_and_d(ctx, prog, f, acq, g)
+
+
+def _r37c_and_d(ctx, prog, f, acq, g):
     # ---- R37c
     loops = []
     for n in g.nodes:
@@ -163,6 +173,51 @@ def run(ctx) -> None:
         else:
             ctx.fail("R37d", fn, w, inst, f"{MAP} written outside its acquire/release functions")
     ctx.floor("R37d", 2)
+
+
+def _check_counter_design(ctx, f, acq, s, s2, sub, is_map) -> bool:
+    """Recognise `self.<counts>[user] = self.<counts>.get(user, 0) + 1` / `+= 1` in the acquire function."""
+    ga = cfg_of(acq)
+    incs = []
+    for n in ga.nodes:
+        if n.kind != "stmt":
+            continue
+        a = n.ast
+        tgt = None
+        if isinstance(a, ast.AugAssign) and isinstance(a.op, ast.Add) and isinstance(a.target, ast.Subscript):
+            tgt = a.target
+        elif isinstance(a, ast.Assign) and isinstance(a.targets[0], ast.Subscript) and isinstance(a.value, ast.BinOp) \
+                and isinstance(a.value.op, ast.Add) and isinstance(a.value.right, ast.Constant) and a.value.right.value == 1:
+            tgt = a.targets[0]
+        if tgt is not None and isinstance(tgt.value, ast.Attribute) and isinstance(tgt.value.value, ast.Name) \
+                and tgt.value.value.id == s2 and tgt.value.attr != MAP:
+            incs.append((n, tgt.value.attr))
+    if not incs:
+        return False
+    from ..cfg import facts_at
+    for n, counter in incs:
+        facts = facts_at(ga, n)
+        new_conn = any((f"not in self.{MAP}" in a_ and pol) or (f" in self.{MAP}" in a_ and "not in" not in a_ and not pol)
+                       for a_, pol in facts)
+        inst = f"user_subscribed_pubsub: {n.text()[:70]} only for a new connection key"
+        if new_conn:
+            ctx.ok("R37b", inst)
+        else:
+            ctx.fail("R37b", acq, n.ast, inst,
+                     f"the per-user counter self.{counter} is incremented on every subscribe event, but the connection map is keyed "
+                     f"by connection: a connection that subscribes twice (re-subscribe) raises the count to 2 while the map still "
+                     f"holds one entry, so after that connection closes the user is never removed from active_users")
+    # the release must decrement / drop the counter on the path after the map entry was removed
+    g = cfg_of(f)
+    counters = {c for _, c in incs}
+    dec = [n for n in g.nodes if n.kind == "stmt" and any(isinstance(x, ast.Attribute) and x.attr in counters for x in ast.walk(n.ast))
+           and (isinstance(n.ast, (ast.Assign, ast.AugAssign)) or any(call_attr(c) == "pop" for c in n.calls()))]
+    inst = "on_ws_disconnect: connection counter decremented when the connection's entry is removed"
+    if dec:
+        ctx.ok("R37b", inst)
+    else:
+        ctx.fail("R37b", f, f.node, inst, "the counter is never decremented on disconnect")
+    return True
 
 
 def _threshold(g, scan, defs):
